@@ -6,5 +6,6 @@ CONSTANTS NClasses = 1
  MaxMarks = 2
  WithDeps = TRUE
  MaxDeps = 2
+ OnlyFaulty = FALSE
 INVARIANT Emit
 CHECK_DEADLOCK FALSE
